@@ -115,6 +115,37 @@ func (r *run) compare(what string, req map[string]interface{}, before raft.VRepl
 	return true
 }
 
+// backoffs compares util.go backOff with the model on random (round, max) pairs: the retry delay of runLoop.
+func (r *run) backoffs(n int) bool {
+	for i := 0; i < n; i++ {
+		round := uint64(r.rng.Intn(16))
+		if r.rng.Intn(10) == 0 {
+			round = uint64(r.rng.Int63())
+		}
+		hb := []int64{1, 2, 3, 1000, 5e6, 2e7, 5e7, 1e8, 1e9, 3e9, 1e10, 6e10}[r.rng.Intn(12)]
+		max := []int64{hb / 2, hb, 2 * hb, hb/2 + int64(r.rng.Intn(1000)), int64(r.rng.Int63n(4e10))}[r.rng.Intn(5)]
+		real := int64(raft.VerifBackOff(round, time.Duration(max)))
+		r.st.Steps++
+		ans, err := r.d.Ask(map[string]interface{}{"engine": "repl", "what": "backOff", "round": round, "max": max, "id": r.st.Steps})
+		if err != nil {
+			r.fail("driver", fmt.Sprint(err), nil, map[string]interface{}{"req": "backOff"})
+			return false
+		}
+		r.st.Hist["repl:backOff"]++
+		rb := round
+		if rb > 13 {
+			rb = 13
+		}
+		r.st.Distinct[fmt.Sprintf("backOff|capped%v|r%d", real == max, rb)] = true
+		if !harness.Equal(harness.ToCanon(real), harness.Canon(ans["backOff"])) {
+			r.fail("correspondence", "backOff differs from the model", "C17",
+				map[string]interface{}{"real": real, "model": map[string]interface{}{"first": ans}, "round": round, "max": max, "op": map[string]interface{}{"kind": "repl:backOff"}})
+			return false
+		}
+	}
+	return true
+}
+
 // checkRequest evaluates C04/C06 directly on the real request against the real leader log.
 func (r *run) checkRequest(ld raft.VNode, before raft.VReplState, out raft.VReplOut) bool {
 	q := out.Append
@@ -326,6 +357,9 @@ func main() {
 		defer w.Destroy()
 		w.Seed = sseed
 		r := &run{rng: rng, d: d, st: st, seed: sseed, w: w}
+		if !r.backoffs(8) {
+			return
+		}
 		r.sequence(nsteps)
 	}
 	if *replay != "" {
